@@ -12,7 +12,8 @@ def run(ctx):
     core_specs.ownership(ctx)
     binp = ctx.build_harness(cc.HARNESS)
     q = ctx.quick()
-    trace, res, summ = cc.run_profile(ctx, binp, "own", 32 if q else 320, 30 if q else 40)
-    cc.report(ctx, PID, res, trace, "own")
+    runs = cc.run_profile(ctx, binp, "own", 32 if q else 320, 30 if q else 40)
+    cc.report_all(ctx, PID, runs, "own")
+    trace, res = runs[0]
     cc.mutate_and_reject(ctx, trace, "own", cc.mut_owner, "new object owned by another identity")
     ctx.cov["rule"] = "seeded CREATE/MKDIR/SYMLINK/SETATTR histories with callers uid in {0,7,1000,65534} x gid in {0,100,1000,65534}, squash none/root/all/default, every subset of sattr3 uid/gid; the backend's recorded owner of every object and every chown/lchown call are logged"
